@@ -105,14 +105,38 @@ def check(ctx):
         ctx.check(not extra, "R06.4", short_name + "/error-set", "constructs %s" % sorted(errs), fn.at(),
                   bad_detail="constructs undocumented error(s) %s (documented: %s)" % (sorted(extra), sorted(spec["errors"])))
 
-    # Best / Worst / Random end in ok_or(EmptyPopulation)
+    # Best / Worst / Random: Ok(x) iff the reduction / choice is Some(x), Err(EmptyPopulation) iff it is None
+    from . import ckit as K
     for name, inner in (("best::Best", "Iterator::max"), ("worst::Worst", "Iterator::min"), ("random::Random", "IndexedRandom::choose")):
-        fn = ctx.fn(SEL % name)
-        for p in return_paths(ctx.paths(fn)):
-            b = {}
-            good = match(p.ret, Call("Option::ok_or", Call(inner, bind="inner"), lambda e: "EmptyPopulation" in err_adts(e)), b)
-            ctx.check(good, "R06.2", name.split("::")[-1] + "/empty-guard", short(p.ret, 6), fn.at(),
-                      bad_detail="expected ok_or(%s(..), EmptyPopulation), got %s" % (inner, short(p.ret, 8)))
+        def legacy(c, name=name, inner=inner):
+            fn = c.fn(SEL % name)
+            for p in return_paths(c.paths(fn)):
+                b = {}
+                good = match(p.ret, Call("Option::ok_or", Call(inner, bind="inner"), lambda e: "EmptyPopulation" in err_adts(e)), b)
+                c.check(good, "R06.2", name.split("::")[-1] + "/empty-guard", short(p.ret, 6), fn.at(),
+                        bad_detail="expected ok_or(%s(..), EmptyPopulation), got %s" % (inner, short(p.ret, 8)))
+
+        def canonical(c, name=name, inner=inner):
+            fn = c.fn(SEL % name)
+            paths = K.live(c.cpaths(fn))
+            good = bool(paths) and all(p.end == "return" for p in paths)
+            kinds = set()
+            for p in paths:
+                ic = K.calls_of(p, inner)
+                kind, pay = K.outcome(p)
+                kinds.add(kind)
+                if len(ic) != 1:
+                    good = False
+                elif kind == "ok":
+                    good = good and pay == ("field", ic[0], 0, "Some") and K.discr_is(p, lambda o: o == ic[0], 1)
+                elif kind == "err":
+                    good = good and "EmptyPopulation" in err_adts(K.conv_free(pay)) and K.discr_is(p, lambda o: o == ic[0], 0)
+                else:
+                    good = False
+            c.check(good and kinds == {"ok", "err"}, "R06.2", name.split("::")[-1] + "/empty-guard", "Ok(x) iff %s(..) = Some(x); Err(EmptyPopulation) iff None" % inner, fn.at(),
+                    bad_detail="expected Ok(x) iff %s(..) is Some(x) and Err(EmptyPopulation) iff it is None; canonical outcomes: %s" % (
+                        inner, "; ".join("[%s] -> %s" % (cond_str(p), short(p.ret, 5) if p.ret else p.end) for p in paths)))
+        K.either(ctx, legacy, canonical)
     fn = ctx.fn(SEL % "random::Random")
     for p in return_paths(ctx.paths(fn)):
         ch = [c for c in p.calls() if callee_is(c, "IndexedRandom::choose")]
@@ -270,6 +294,10 @@ def check(ctx):
          "what": "panicking::panic_fmt",
          "reason": "unreachable!: choose_multiple(k>=1 of n>=k).max() is Some; guard = strict size check dominates the sample (R07.3) and Tournament.size is NonZero<usize>",
          "guard": tournament_unreachable_guard},
+        {"fn": "tournament::Tournament as ec_core::operator::selector::Selector<P>>::select", "exact": SEL % "tournament::Tournament",
+         "what": "panicking::panic_fmt",
+         "reason": "the None arm of choose_multiple(k>=1 of n>=k).max(), spelled as an explicit match: dead for the same reason",
+         "guard": tournament_unreachable_guard},
     ]
     audit_panics(ctx, "R06.3", scope, discharge, floor=1)
     ctx.extra["scope_functions_R06.3"] = len(scope)
@@ -289,9 +317,16 @@ def tournament_unreachable_guard(ctx, site):
     fn = ctx.F.fns.get(SEL % "tournament::Tournament")
     guard_ok = False
     if fn:
-        for p in return_paths(ctx.paths(fn)):
-            if any(callee_is(c, "Option::ok_or_else") for c in p.calls()):
-                g = [c for c in p.conds if match(c[0], BinOp("Lt", rules_c07.is_pop_size, rules_c07.is_self_size)) and c[1] == 0]
-                cm = [c for c in p.calls() if callee_is(c, "IndexedRandom::choose_multiple")]
-                guard_ok = bool(g) and len(cm) == 1 and rules_c07.is_self_size(cm[0][3][2])
-    return nz and guard_ok, "size: NonZero<usize> = %s, guarded sample = %s" % (nz, guard_ok)
+        # every way into the panic goes through "max() of the sample is None", the sample being choose_multiple(.., self.size)
+        # taken under population.size() >= self.size (canonical paths: the ok_or_else(|| unreachable!()) closure and an
+        # explicit `None => unreachable!()` arm are the same outcome)
+        from . import ckit as K
+        div = [p for p in ctx.cpaths(fn) if p.end == "diverge"]
+        guard_ok = bool(div)
+        for p in div:
+            cm = K.calls_of(p, "IndexedRandom::choose_multiple")
+            mx = K.calls_of(p, "Iterator::max")
+            ok1 = len(cm) == 1 and len(mx) == 1 and mx[0][3][0] == cm[0] and rules_c07._size_val(cm[0][3][2]) and K.discr_is(p, lambda o: o == mx[0], 0)
+            ok2 = K.holds(K.rels(p), rules_c07._pop_size, "Ge", rules_c07._size_val)
+            guard_ok = guard_ok and ok1 and ok2
+    return nz and guard_ok, "size: NonZero<usize> = %s, panic only under max(sample of self.size from >= self.size) == None: %s" % (nz, guard_ok)
